@@ -900,7 +900,7 @@ class ContentAttrParser(object):
                 # Unquoted value
                 oldPosition = self.data.position
                 try:
-                    self.data.skipUntil(spaceCharactersBytes)
+                    self.data.skipUntil(spaceCharactersBytes | frozenset([b";"]))
                     return self.data[oldPosition:self.data.position]
                 except StopIteration:
                     # Return the whole remaining value
